@@ -46,6 +46,10 @@ def run(ctx):
         c = mkcase('B%d' % i, cfg, data)
         if mode != 'pipe': c['out_room'] = 0
         c['_cut'] = cut and not any('nope' in x for x in cfg['select']); cases.append(c); jobs.append((c, mode, regions))
+    # every kind of cut-off last value under --on-error=panic, plain configuration: the input failed, so must the run
+    for t, tail in enumerate([b'[3,', b'{"a": ', b'"abc', b'tru', b'-', b'[1, 2', b'{"k"', b'{"k":1,', b'[[1],', b'"\\u00']):
+        cfg = lib.new_cfg(on_error='panic'); c = mkcase('BT%d' % t, cfg, b'1 2\n' + tail); c['_cut'] = True
+        cases.append(c); jobs.append((c, 'pipe', 0))
     model = lib.run_model(cases)
     results = {}
     def work(js):
